@@ -330,6 +330,10 @@ def check(ctx):
     shared.check_degree_recompute(ctx)
     apply_shape(ctx)
     existence_patterns(ctx)
+    # a connection set imputed for one existence scenario is not re-used for another (same present connectors, other
+    # degrees of a group): the imputer memo is keyed by the whole existence pattern
+    from . import c10 as _c10
+    _c10.imputer_memo(ctx)
     from ..rules import symmetry
     symmetry.check_side_symmetry(ctx)
     ctx.floor('A4', 45, 'graph walks')
